@@ -221,7 +221,7 @@ PROPS = {
         "scenarios": ["C20"],
         "race": True,
         "level": "exploration",
-        "quick_runs": {"C20": 400},
+        "quick_runs": {"C20": 240},
         "thorough_runs": {"C20": 60000},
         "thorough_wall": 1200,
         "batch": 25,
